@@ -266,6 +266,8 @@ type e6Interp struct {
 	OuterName func(v ssa.Value) string
 	// MaxAtoms bounds the atoms of one region (default 14).
 	MaxAtoms int
+	// Decide, when set, answers branch atoms from an abstract valuation (signs, ranks) instead of enumerating them.
+	Decide func(s *Sym) (val bool, ok bool)
 
 	env     map[ssa.Value]*Sym
 	mem     map[string]*Sym
@@ -289,6 +291,11 @@ func (e *e6Interp) need(s *Sym) bool {
 		if isBoolT(s.Args[0].Type) && (s.Tok == token.EQL || s.Tok == token.NEQ) {
 			a, b := e.need(s.Args[0]), e.need(s.Args[1])
 			return (a == b) == (s.Tok == token.EQL)
+		}
+	}
+	if e.Decide != nil {
+		if v, ok := e.Decide(s); ok {
+			return v
 		}
 	}
 	k := s.String()
